@@ -174,7 +174,7 @@ class Check:
             self.log("extraction build of %s failed: %s" % (engine, out[-400:]))
         return rc == 0
 
-    def coq_build(self, engine: str, timeout: int = 1500, jobs: int = 16) -> bool:
+    def coq_build(self, engine: str, timeout: int = 1500, jobs: int = 16, props=None) -> bool:
         """Full .vo build of /verif/coq/<engine> (coq_makefile project).  Records one obligation per
         theorem in Props*.v and the Print Assumptions output found in the build log."""
         d = COQ / engine
@@ -183,7 +183,10 @@ class Check:
         self.cov["checker_cmd"] = (self.cov["checker_cmd"] + " ; " if self.cov["checker_cmd"] else "") + (
             "cd coq/%s && %s" % (engine, cmd)
         )
-        props = [pf for pf in sorted(d.glob("Props*.v")) if self._props_for_me(pf)]
+        if props is not None:  # explicit list of Props file stems this property relies on
+            props = [d / (stem + ".v") for stem in props]
+        else:
+            props = [pf for pf in sorted(d.glob("Props*.v")) if self._props_for_me(pf)]
         for pf in props:  # force the property theorems to be re-checked on every run
             for suf in (".vo", ".glob", ".vok", ".vos"):
                 q = pf.with_suffix(suf)
